@@ -337,7 +337,7 @@ func monitor(c hxlib.Case, outs []string) (vs []hxlib.Violation) {
 			if of[0] == "ok" && len(of) == 4 {
 				reparse(func(sig, what string) { add(i, sig, what) }, of[1], of[2], of[3])
 			}
-		case "rt":
+		case "rt", "rtb":
 			if of[0] != "ok" {
 				continue // does not pass its own check: outside the statement
 			}
